@@ -176,6 +176,14 @@ def parse_orig(line):
     return {"id": sx[1], "pkg": sx_field(sx[2:], "pkg"), "imports": sx_field(sx[2:], "imports"),
             "tree": t[0] if t else None}
 
+def write_jsonl(ctx, cases, tag="jl"):
+    d = ctx.scratch(tag)
+    pth = os.path.join(d, "in.jsonl")
+    with open(pth, "w") as f:
+        for c in cases:
+            f.write(json.dumps(c) + "\n")
+    return pth
+
 def run_engine_batch(ctx, args, tag):
     """Run the harness `engine` command and the model driver; return list of
     (input, orig, impl, model) per case that could be expressed."""
@@ -658,7 +666,8 @@ def make_scenarios(ctx, cases, n, rng, kinds):
             files[rng.choice(["a/bad.go", "zbad.go", "0bad.go"])] = UNPARSEABLE
             note.append("unparseable")
         if "odd" in kinds and rng.random() < 0.8:
-            files[rng.choice(["odd.go", "a/odd.go"])] = rng.choice(ODD_UNMATCHED)
+            # (a file whose name starts with ro_ is made read-only by setup_scenario: nothing has to be written to it)
+            files[rng.choice(["odd.go", "a/odd.go", "ro_odd.go", "a/ro_odd.go"])] = rng.choice(ODD_UNMATCHED)
             note.append("odd")
         if "imports-only" in kinds:
             # files that satisfy the import guards of the patch but contain none of its code
@@ -702,6 +711,17 @@ def setup_scenario(ctx, sc):
         with open(os.path.join(root, f"p{i}.patch"), "w") as f:
             f.write(p)
     cl.write_tree(root, sc.files)
+    for rel in sc.files:
+        if os.path.basename(rel).startswith("ro_"):
+            os.chmod(os.path.join(root, rel), 0o444)
+    # files that look like what gopatch or an editor leaves behind: none of them is a Go source file, no mode may touch them
+    for rel in sorted(sc.files)[:2]:
+        dn, bn = os.path.split(rel)
+        for decoy in (f".{bn}.123456789.tmp", f"{bn}.orig", f"{bn}~", f".{bn}.swp"):
+            pth = os.path.join(root, dn, decoy)
+            if not os.path.exists(pth):
+                with open(pth, "w") as f:
+                    f.write("not a Go file\n")
     pargs = []
     for i in range(len(sc.patches)):
         pargs += ["-p", f"p{i}.patch"]
@@ -1800,6 +1820,24 @@ def c16(ctx):
                           {"input": {"args": args, "files": {"a.go": "package a", "p.patch": "...", "list.txt": "p.patch\\nnope.patch"}}})
         if cl.digest(root) != before:
             ctx.violation(f"gopatch {' '.join(args)} --print-only modified the directory", {"input": {"args": args}})
+    # the patched bytes cannot be delivered: stdout is full (--print-only and --diff write there)
+    if os.path.exists("/dev/full"):
+        root = ctx.scratch("fullout")
+        cl.write_tree(root, {"a.go": "package a\n\nfunc f() { foo(1) }\n", "b.go": "package a\n\nfunc g() {\n" + "\tfoo(2)\n" * 900 + "}\n",
+                             "p.patch": "@@\nvar x expression\n@@\n-foo(x)\n+bar(x)\n"})
+        for mode in (["--print-only"], ["--diff"], ["--print-only", "-v"]):
+            for target in (["a.go"], ["b.go"], ["a.go", "b.go"]):
+                before = cl.digest(root)
+                with open("/dev/full", "wb") as full:
+                    r = subprocess.run([ctx.gopatch, "-p", "p.patch"] + mode + target, cwd=root, stdout=full, stderr=subprocess.PIPE, timeout=60)
+                e = r.stderr.decode("utf-8", "replace")
+                ctx.evaluations += 1
+                ctx.nontrivial.add("fullout:" + " ".join(mode + target))
+                ctx.count("stdout_full")
+                if r.returncode == 0 or not e.strip() or cl.digest(root) != before:
+                    ctx.violation(f"gopatch -p p.patch {' '.join(mode + target)} > /dev/full: exit {r.returncode}, stderr {e.strip()[:200]!r}: the output "
+                                  "could not be written, which must be reported (non-zero exit, a diagnostic), the files untouched",
+                                  {"fault": "stdout-full", "input": {"args": mode + target, "stdout": "/dev/full"}})
     # unreadable target, as an unprivileged user
     if os.geteuid() == 0 and shutil.which("setpriv"):
         root = ctx.scratch("unread")
@@ -2450,6 +2488,28 @@ def c13(ctx):
             ctx.violation(f"the effect of the patch changed under the layout transformation {'+'.join(done)}",
                           {"input": {"original": oinp["patches"][0], "variant": vinp["patches"][0], "src": oinp["src"]},
                            "original_trace": oimpl["trace"], "variant_trace": vimpl["trace"]})
+    # naming the changes of a patch with several changes: every name the first header accepts is accepted in every header and
+    # changes nothing (identifiers, identifiers that are Go keywords or predeclared names, compact headers)
+    two = ("{H1}\nvar x expression\n@@\n-foo(x)\n+bar(x)\n\n{H2}\nvar y expression\n@@\n-return y, nil\n+return y, errNone\n\n{H3}\n@@\n-qux()\n+quux()\n")
+    nsrc = "package a\n\nfunc f() (int, error) {\n\tfoo(1)\n\tqux()\n\treturn g(2), nil\n}\n"
+    NAMES = ["call", "return", "type", "import", "func", "var", "nil", "true", "int", "_", "x1", "go", "package", "Ünï"]
+    named = [{"id": "n-plain", "patches": [two.format(H1="@@", H2="@@", H3="@@")], "src": nsrc}]
+    for nm in NAMES:
+        for which in range(4):
+            hs = [f"@ {nm} @" if which in (k, 3) else "@@" for k in range(3)]
+            named.append({"id": f"n-{nm}-{which}", "patches": [two.format(H1=hs[0], H2=hs[1], H3=hs[2])], "src": nsrc})
+        named.append({"id": f"n-{nm}-c", "patches": [two.format(H1=f"@{nm}@", H2=f"@ {nm}@", H3=f"@{nm} @")], "src": nsrc})
+    nres = {r[0]["id"]: r for r in run_engine_batch(ctx, ["-inputs", write_jsonl(ctx, named)], "c13names")}
+    ref = nres.get("n-plain")
+    for b in named[1:]:
+        ctx.evaluations += 1
+        ctx.count("named_change_layouts")
+        ctx.nontrivial.add(b["patches"][0])
+        r = nres.get(b["id"])
+        if ref is None or r is None or (r[2]["status"], r[2].get("tree")) != (ref[2]["status"], ref[2].get("tree")) or r[2]["status"] != "ok":
+            ctx.violation(f"naming the changes ({b['id']}) changes the effect of the patch or makes it unloadable: "
+                          f"{(r[2]['status'] if r else 'rejected')} vs {(ref[2]['status'] if ref else 'rejected')}",
+                          {"input": {"original": named[0]["patches"][0], "variant": b["patches"][0], "src": nsrc}})
     # descriptions: '#' runs directly above the header only (section.Split vs model)
     fcs = []
     def decorated(c):
